@@ -1,1 +1,497 @@
-//! reference model `multipart_gen` — not built yet.
+//! Multipart *generator / encoder* (RFC 2046 §5.1.1, RFC 7578): ground truth by construction.
+//!
+//! A `Body` is a boundary, an optional preamble, a list of parts (header lines + exact content
+//! bytes), a close delimiter with or without the final CRLF and an optional epilogue.  `encode`
+//! serialises it and records where every part's headers and content start and end, so the expected
+//! fields (and the exact byte offset up to which a parser must have read in order to deliver a given
+//! content byte) are known without ever parsing anything.  Nothing here shares code with the
+//! repository.
+//!
+//! Grammar encoded (RFC 2046):
+//!
+//! ```text
+//! multipart-body := [preamble CRLF] "--" boundary CRLF body-part
+//!                   *( CRLF "--" boundary CRLF body-part )
+//!                   CRLF "--" boundary "--" [CRLF epilogue]
+//! body-part      := 1*( field-name ":" [SP] value CRLF ) CRLF *OCTET
+//! ```
+//!
+//! Content is legal iff the delimiter `CRLF "--" boundary` does not occur in it (RFC 2046: the
+//! boundary must not appear "as the prefix of any line" of the encapsulated part) — checked as "the
+//! first occurrence of the delimiter in `CRLF content CRLF--boundary` is the real one".  No
+//! transport padding is generated (composers MUST NOT).  A zero-part body (`--B--`) is what browsers
+//! send for an empty form; it is generated with its CRLF.
+
+use crate::util::Rng;
+
+#[derive(Clone, Debug)]
+pub struct Part {
+    /// header lines exactly as written: (name as written, separator after the colon, value)
+    pub headers: Vec<(String, &'static str, String)>,
+    /// value of the `name` parameter of a `form-data` Content-Disposition, if one was written
+    pub name: Option<String>,
+    /// essence of the part's Content-Type header, if one was written
+    pub content_type: Option<String>,
+    pub content: Vec<u8>,
+    /// content class label (evidence only)
+    pub class: &'static str,
+}
+
+#[derive(Clone, Debug)]
+pub struct Body {
+    pub boundary: String,
+    /// "form-data" | "mixed" | "related"
+    pub subtype: &'static str,
+    /// whole preamble including its terminating CRLF (empty = none)
+    pub preamble: Vec<u8>,
+    pub parts: Vec<Part>,
+    pub final_crlf: bool,
+    /// only written when `final_crlf`
+    pub epilogue: Vec<u8>,
+    pub quote_boundary: bool,
+}
+
+#[derive(Clone, Copy, Debug, PartialEq, Eq)]
+pub struct Span {
+    /// offset of the first header byte (just after the delimiter line)
+    pub hdr_start: usize,
+    /// offset of the first content byte (just after the blank line)
+    pub content_start: usize,
+    /// offset one past the last content byte (= offset of the CR of the following delimiter)
+    pub content_end: usize,
+}
+
+#[derive(Clone, Debug)]
+pub struct Encoded {
+    pub bytes: Vec<u8>,
+    pub spans: Vec<Span>,
+    /// offset of the first byte of the first dash-boundary (= preamble length)
+    pub first_boundary: usize,
+    /// offset one past the second dash of the close delimiter `--B--`
+    pub close_end: usize,
+}
+
+pub fn content_type_header(b: &Body) -> String {
+    if b.quote_boundary {
+        format!("multipart/{}; boundary=\"{}\"", b.subtype, b.boundary)
+    } else {
+        format!("multipart/{}; boundary={}", b.subtype, b.boundary)
+    }
+}
+
+pub fn encode(b: &Body) -> Encoded {
+    let mut out = Vec::new();
+    let mut spans = Vec::new();
+    out.extend_from_slice(&b.preamble);
+    let first_boundary = out.len();
+    out.extend_from_slice(b"--");
+    out.extend_from_slice(b.boundary.as_bytes());
+    if b.parts.is_empty() {
+        out.extend_from_slice(b"--");
+    } else {
+        for (i, p) in b.parts.iter().enumerate() {
+            out.extend_from_slice(b"\r\n");
+            let hdr_start = out.len();
+            for (n, sep, v) in &p.headers {
+                out.extend_from_slice(n.as_bytes());
+                out.push(b':');
+                out.extend_from_slice(sep.as_bytes());
+                out.extend_from_slice(v.as_bytes());
+                out.extend_from_slice(b"\r\n");
+            }
+            out.extend_from_slice(b"\r\n");
+            let content_start = out.len();
+            out.extend_from_slice(&p.content);
+            let content_end = out.len();
+            spans.push(Span { hdr_start, content_start, content_end });
+            out.extend_from_slice(b"\r\n--");
+            out.extend_from_slice(b.boundary.as_bytes());
+            if i + 1 == b.parts.len() {
+                out.extend_from_slice(b"--");
+            }
+        }
+    }
+    let close_end = out.len();
+    if b.final_crlf {
+        out.extend_from_slice(b"\r\n");
+        out.extend_from_slice(&b.epilogue);
+    }
+    Encoded { bytes: out, spans, first_boundary, close_end }
+}
+
+fn find(hay: &[u8], needle: &[u8]) -> Option<usize> {
+    if needle.is_empty() || hay.len() < needle.len() {
+        return None;
+    }
+    (0..=hay.len() - needle.len()).find(|&i| &hay[i..i + needle.len()] == needle)
+}
+
+pub fn delimiter(boundary: &str) -> Vec<u8> {
+    let mut d = b"\r\n--".to_vec();
+    d.extend_from_slice(boundary.as_bytes());
+    d
+}
+
+/// RFC 2046: the delimiter must not occur in the encapsulated content.  The CRLF that ends the
+/// header block counts as a line start (content beginning with `--B` is excluded too).
+pub fn content_is_legal(content: &[u8], boundary: &str) -> bool {
+    let d = delimiter(boundary);
+    let mut s = b"\r\n".to_vec();
+    s.extend_from_slice(content);
+    s.extend_from_slice(&d);
+    find(&s, &d) == Some(content.len() + 2)
+}
+
+/// Does the content contain a *bare-CR* look-alike `CR "--" boundary` (not preceded by… anything
+/// in particular, not followed by LF between CR and the dashes)?  Legal content per the grammar,
+/// kept as its own class because a scanner that accepts CR alone as a line break will misread it.
+pub fn has_bare_cr_lookalike(content: &[u8], boundary: &str) -> bool {
+    let mut d = b"\r--".to_vec();
+    d.extend_from_slice(boundary.as_bytes());
+    find(content, &d).is_some()
+}
+
+// ------------------------------------------------------------------------------------------------
+// random generation
+
+/// bchars of RFC 2046 that survive inside an unquoted `boundary=` parameter
+const BCHARS_TOKEN: &[u8] = b"0123456789abcdefghijklmnopqrstuvwxyzABCDEFGHIJKLMNOPQRSTUVWXYZ'+_-.";
+/// bchars that need the parameter to be quoted
+const BCHARS_QUOTED: &[u8] = b"(),/:=? ";
+
+pub fn gen_boundary(rng: &mut Rng) -> (String, bool) {
+    let len = match rng.below(10) {
+        0 => 1,
+        1 => 2,
+        2 => rng.range(3, 6),
+        3 => 70,
+        4 => rng.range(60, 70),
+        _ => rng.range(7, 40),
+    };
+    let style = rng.below(6);
+    let mut quoted = rng.chance(1, 6);
+    let mut s = String::new();
+    for i in 0..len {
+        let c = match style {
+            // all dashes / dash-heavy: `--B--` vs `--B` ambiguity surface
+            0 => *rng.pick(b"--a"),
+            // repeated single char: every proper prefix is also a suffix
+            1 => b'a',
+            // browser style
+            2 if i < len / 2 => b'-',
+            3 if rng.chance(1, 5) => {
+                quoted = true;
+                *rng.pick(BCHARS_QUOTED)
+            }
+            _ => *rng.pick(BCHARS_TOKEN),
+        };
+        s.push(c as char);
+    }
+    // a boundary may not end with a space
+    if s.ends_with(' ') {
+        s.pop();
+        s.push('x');
+    }
+    (s, quoted)
+}
+
+pub const CONTENT_CLASSES: &[&str] = &[
+    "empty",
+    "text",
+    "binary",
+    "ends-cr",
+    "ends-crlf",
+    "ends-dashes",
+    "ends-crlf-dashes",
+    "ends-bprefix",
+    "has-bprefix",
+    "has-boundary-x",
+    "lf-dashes-boundary",
+    "cr-heavy",
+    "crlf-only",
+    "starts-crlf-dashes",
+    "delimiter-minus-one",
+    "cr-dashes-boundary",
+    "near-mix",
+];
+
+fn filler(rng: &mut Rng, n: usize) -> Vec<u8> {
+    match rng.below(3) {
+        0 => (0..n).map(|_| *rng.pick(b"abcdefghij klmnop=&-")).collect(),
+        1 => rng.bytes(n),
+        _ => (0..n).map(|_| *rng.pick(b"ab\r\n-")).collect(),
+    }
+}
+
+/// One near-boundary fragment: the things a delimiter scanner has to tell apart from the real one.
+fn near_fragment(rng: &mut Rng, boundary: &str) -> Vec<u8> {
+    let b = boundary.as_bytes();
+    let k = rng.below(b.len()); // proper prefix length (0..len-1)
+    let mut v: Vec<u8> = vec![];
+    match rng.below(9) {
+        0 => v.extend_from_slice(b"\r"),
+        1 => v.extend_from_slice(b"\r\n"),
+        2 => v.extend_from_slice(b"\r\n-"),
+        3 => v.extend_from_slice(b"\r\n--"),
+        4 => {
+            v.extend_from_slice(b"\r\n--");
+            v.extend_from_slice(&b[..k]);
+        }
+        5 => {
+            // boundary followed by x, but not at the start of a line
+            v.extend_from_slice(b"q--");
+            v.extend_from_slice(b);
+            v.push(b'x');
+        }
+        6 => {
+            v.extend_from_slice(b"\n--");
+            v.extend_from_slice(b);
+            v.extend_from_slice(b"\r\n");
+        }
+        7 => {
+            v.extend_from_slice(b"\r\r\n-");
+            v.extend_from_slice(&b[..k]);
+        }
+        _ => {
+            v.extend_from_slice(b"--");
+            v.extend_from_slice(b);
+            v.extend_from_slice(b"--");
+            // make sure it does not start a line
+            v.insert(0, b'z');
+        }
+    }
+    v
+}
+
+/// Content of the requested class (always legal for `boundary`; falls back to plain text after a
+/// few attempts when boundary and class interact, e.g. 1-char boundaries).
+pub fn gen_content(rng: &mut Rng, class: &str, boundary: &str, max_len: usize) -> Vec<u8> {
+    let b = boundary.as_bytes();
+    for _ in 0..8 {
+        let n = if max_len == 0 { 0 } else { rng.below(max_len + 1) };
+        let mut c: Vec<u8> = match class {
+            "empty" => vec![],
+            "text" => (0..n).map(|_| *rng.pick(b"abcdefghijklmnopqrstuvwxyz 0123456789=&%-")).collect(),
+            "binary" => rng.bytes(n),
+            "ends-cr" => {
+                let mut v = filler(rng, n);
+                v.push(b'\r');
+                v
+            }
+            "ends-crlf" => {
+                let mut v = filler(rng, n);
+                v.extend_from_slice(b"\r\n");
+                v
+            }
+            "ends-dashes" => {
+                let mut v = filler(rng, n);
+                v.extend_from_slice(b"--");
+                v
+            }
+            "ends-crlf-dashes" => {
+                let mut v = filler(rng, n);
+                v.extend_from_slice(b"\r\n--");
+                v
+            }
+            "ends-bprefix" => {
+                let mut v = filler(rng, n);
+                v.extend_from_slice(b"\r\n--");
+                v.extend_from_slice(&b[..rng.below(b.len())]);
+                v
+            }
+            "has-bprefix" => {
+                let mut v = filler(rng, n / 2);
+                v.extend_from_slice(b"\r\n--");
+                v.extend_from_slice(&b[..rng.below(b.len())]);
+                v.push(b'!');
+                v.extend_from_slice(&filler(rng, n / 2));
+                v
+            }
+            "has-boundary-x" => {
+                let mut v = filler(rng, n / 2);
+                v.extend_from_slice(b"q--");
+                v.extend_from_slice(b);
+                v.extend_from_slice(b"x\r\n");
+                v.extend_from_slice(&filler(rng, n / 2));
+                v
+            }
+            "lf-dashes-boundary" => {
+                let mut v = filler(rng, n / 2);
+                v.extend_from_slice(b"a\n--");
+                v.extend_from_slice(b);
+                v.extend_from_slice(b"\r\n");
+                v.extend_from_slice(&filler(rng, n / 2));
+                v
+            }
+            "cr-heavy" => (0..n).map(|_| *rng.pick(b"\r\r\r\n-a")).collect(),
+            "crlf-only" => b"\r\n".to_vec(),
+            "starts-crlf-dashes" => {
+                let mut v = b"\r\n--".to_vec();
+                v.extend_from_slice(&b[..rng.below(b.len())]);
+                v.push(b'~');
+                v.extend_from_slice(&filler(rng, n));
+                v
+            }
+            "cr-dashes-boundary" => {
+                // bare CR (no LF) followed by the dash-boundary: not a delimiter per the grammar
+                let mut v = filler(rng, n / 2);
+                v.extend_from_slice(b"x\r--");
+                v.extend_from_slice(b);
+                v.extend_from_slice(*rng.pick(&[&b"\r\n"[..], &b"--"[..], &b"z"[..], &b""[..]]));
+                v.extend_from_slice(&filler(rng, n / 2));
+                v
+            }
+            "delimiter-minus-one" => {
+                // CRLF--boundary with its last character changed
+                let mut v = filler(rng, n / 2);
+                v.extend_from_slice(b"\r\n--");
+                v.extend_from_slice(&b[..b.len() - 1]);
+                v.push(if b[b.len() - 1] == b'#' { b'$' } else { b'#' });
+                v.extend_from_slice(&filler(rng, n / 2));
+                v
+            }
+            _ => {
+                // near-mix
+                let mut v = vec![];
+                let k = rng.range(1, 6);
+                for _ in 0..k {
+                    let fl = rng.below(n / k + 2);
+                    let f = filler(rng, fl);
+                    v.extend_from_slice(&f);
+                    v.extend_from_slice(&near_fragment(rng, boundary));
+                }
+                v
+            }
+        };
+        let bare_ok = class == "cr-dashes-boundary";
+        if content_is_legal(&c, boundary) && (bare_ok || !has_bare_cr_lookalike(&c, boundary)) {
+            return c;
+        }
+        // repair: break every accidental delimiter occurrence (bounded)
+        let d = delimiter(boundary);
+        let mut d2 = b"\r--".to_vec();
+        d2.extend_from_slice(b);
+        for _ in 0..64 {
+            let mut s = b"\r\n".to_vec();
+            s.extend_from_slice(&c);
+            // index (in the content) of the first dash of a look-alike
+            let hit = match find(&s, &d) {
+                Some(i) => Some(i), // s index of CR; first dash is at s[i+2] = c[i]
+                None if !bare_ok => find(&c, &d2).map(|i| i + 1),
+                None => None,
+            };
+            match hit {
+                Some(at) if at < c.len() => c[at] = b'_',
+                _ => break,
+            }
+        }
+        if content_is_legal(&c, boundary) && (bare_ok || !has_bare_cr_lookalike(&c, boundary)) {
+            return c;
+        }
+    }
+    b"q".to_vec()
+}
+
+const NAME_CHARS: &[u8] = b"abcdefghijklmnopqrstuvwxyzABCDEFGHIJKLMNOPQRSTUVWXYZ0123456789_-.[] ";
+
+pub fn gen_name(rng: &mut Rng) -> String {
+    let n = rng.range(1, 12);
+    let mut s: String = (0..n).map(|_| *rng.pick(NAME_CHARS) as char).collect();
+    // keep the quoted-string free of leading/trailing blanks (header value trimming is not C15's business)
+    if s.starts_with(' ') || s.ends_with(' ') {
+        s = s.replace(' ', "_");
+    }
+    s
+}
+
+/// Options for one random part.
+pub struct PartOpts {
+    pub subtype: &'static str,
+    pub with_cl: bool,
+    pub class: &'static str,
+    pub max_len: usize,
+}
+
+pub fn gen_part(rng: &mut Rng, boundary: &str, o: &PartOpts) -> Part {
+    let content = gen_content(rng, o.class, boundary, o.max_len);
+    let mut headers: Vec<(String, &'static str, String)> = vec![];
+    let mut name = None;
+    let mut content_type = None;
+    let sep = |rng: &mut Rng| -> &'static str {
+        if rng.chance(1, 8) {
+            ""
+        } else {
+            " "
+        }
+    };
+    let form = o.subtype == "form-data";
+    if form || rng.chance(1, 2) {
+        let n = gen_name(rng);
+        let mut v = format!("form-data; name=\"{n}\"");
+        if rng.chance(1, 3) {
+            v.push_str(&format!("; filename=\"{}.bin\"", gen_name(rng).replace(' ', "_")));
+        }
+        let hn = *rng.pick(&["Content-Disposition", "content-disposition", "CONTENT-DISPOSITION"]);
+        headers.push((hn.to_string(), sep(rng), v));
+        name = Some(n);
+    }
+    if rng.chance(1, 2) {
+        let ct = *rng.pick(&["text/plain", "application/octet-stream", "image/png", "text/plain; charset=utf-8"]);
+        headers.push(((*rng.pick(&["Content-Type", "content-type"])).to_string(), sep(rng), ct.to_string()));
+        content_type = Some(ct.split(';').next().unwrap().to_string());
+    }
+    if rng.chance(1, 4) || headers.is_empty() {
+        headers.push((format!("X-{}", gen_name(rng).replace([' ', '[', ']'], "-")), sep(rng), format!("v{}", rng.below(1000))));
+    }
+    if o.with_cl {
+        headers.push(((*rng.pick(&["Content-Length", "content-length"])).to_string(), sep(rng), content.len().to_string()));
+    }
+    // header order is free
+    if headers.len() > 1 && rng.chance(1, 3) {
+        let i = rng.below(headers.len());
+        headers.swap(0, i);
+    }
+    Part { headers, name, content_type, content, class: o.class }
+}
+
+/// No line of the preamble is a delimiter line (`--B` or `--B--`, with or without trailing CR).
+pub fn preamble_is_legal(preamble: &[u8], boundary: &str) -> bool {
+    let open = format!("--{boundary}").into_bytes();
+    let close = format!("--{boundary}--").into_bytes();
+    preamble.split(|b| *b == b'\n').all(|line| {
+        let line = line.strip_suffix(b"\r").unwrap_or(line);
+        line != open.as_slice() && line != close.as_slice()
+    })
+}
+
+/// Preamble: lines that are not the dash-boundary line, ending in CRLF.
+pub fn gen_preamble(rng: &mut Rng, boundary: &str) -> Vec<u8> {
+    let mut v = vec![];
+    for _ in 0..rng.range(1, 3) {
+        match rng.below(5) {
+            0 => v.extend_from_slice(b"This is a multi-part message in MIME format."),
+            1 => {
+                // a line that merely *contains* the boundary
+                v.extend_from_slice(b"x--");
+                v.extend_from_slice(boundary.as_bytes());
+            }
+            2 => {
+                // a line that starts like the dash-boundary and goes on
+                v.extend_from_slice(b"--");
+                v.extend_from_slice(boundary.as_bytes());
+                v.extend_from_slice(b"~not");
+            }
+            3 => {}
+            _ => {
+                let line: Vec<u8> = (0..rng.below(30)).map(|_| *rng.pick(b"abc -")).collect();
+                // a random line must not happen to be a delimiter line (`--B` / `--B--`)
+                if line.starts_with(b"--") {
+                    v.push(b'p');
+                }
+                v.extend_from_slice(&line);
+            }
+        }
+        v.extend_from_slice(b"\r\n");
+    }
+    v
+}
